@@ -408,6 +408,35 @@ def check_large(case, ctx):
     _binom(ctx, int(sw.sum()), n * (p - 1), 0.1, "a.interval_frequency", "pooled over %d intervals" % (p - 1))
 
 
+# ---- tiny crossover probabilities ----------------------------------------------------------------------------------------
+def tiny_cases(tier):
+    return [{"kernel": k, "rngkind": r, "seed": s} for (k, r, s) in
+            (("mat_meiosis", "default_rng", 11), ("mat_meiosis", "RandomState", 12), ("dense_meiosis", "default_rng", 13))]
+
+
+def check_tiny(case, ctx):
+    """Intervals with a stored probability of 1e-30 (adjacent markers of a dense panel) essentially never recombine: over
+    1.6e8 interval-meioses the expected number of crossovers is 1.6e-22, so a single one refutes the stored probability
+    (a uniform source with only 2**-24 resolution realises every tiny probability as 6e-8 and yields about ten)."""
+    fn = mate_util.mat_meiosis if case["kernel"] == "mat_meiosis" else core_mate.dense_meiosis
+    p, n, ncall = 4096, 5000, 8
+    geno = gens.tagged_geno(1, p)
+    xo = numpy.full(p, 1e-30)
+    xo[0] = 0.5
+    rng = numpy.random.default_rng(case["seed"]) if case["rngkind"] == "default_rng" else numpy.random.RandomState(case["seed"])
+    ctx.nontrivial(True)
+    ctx.label(case["kernel"] + ":" + case["rngkind"])
+    events, starts1, tot = 0, 0, 0
+    for _ in range(ncall):
+        out = fn(geno, numpy.zeros(n, dtype="int64"), xo, rng)
+        events += int((out[:, 1:] != out[:, :-1]).sum())
+        starts1 += int(out[:, 0].sum())
+        tot += n
+    _binom(ctx, events, tot * (p - 1), 1e-30, "a.interval_frequency_at_tiny_probability",
+           "%s with %s: crossovers in %d interval-meioses at stored probability 1e-30" % (case["kernel"], case["rngkind"], tot * (p - 1)))
+    _binom(ctx, starts1, tot, 0.5, "b.segregation_half", "%s start copy" % case["kernel"])
+
+
 def _set_tier(tier):
     _TIER["tier"] = tier
 
@@ -441,6 +470,9 @@ SUBCHECKS = [
                   "kernels and TwoWay/Self/TwoWayDH protocols; recombination between consecutive heterozygous markers against the "
                   "product formula over all intervening intervals, segregation 1/2; non-trivial = a homozygous marker between two "
                   "heterozygous ones with a crossover probability in (0, 0.5) on the way"),
+    SubCheck("tiny_probabilities", check_tiny, cases=tiny_cases, shards_quick=3, shards_thorough=3,
+             rule="finite: 8 calls x 5000 gametes x 4096 markers at stored probability 1e-30 (1.6e8 interval-meioses) per kernel and "
+                  "generator class: no crossover may occur; start copy still 1/2"),
     SubCheck("large_call", check_large, cases=large_cases, shards_quick=2, shards_thorough=2,
              rule="finite: one call of each meiosis kernel for 4500 gametes x 2048 markers (more than 2**23 uniform draws): all "
                   "crossover patterns distinct, pooled interval frequency"),
